@@ -1920,10 +1920,23 @@ func (s *scanner) addEntryPoints(entryPoints []EntryPoint) []graph.EntryPoint {
 		isGlob  bool
 	}
 	entryPointInfos := make([]entryPointInfo, len(entryPoints))
+
+	// Each entry point logs into its own deferred log. These are merged into
+	// the shared log in entry point order below. Logging to the shared log
+	// directly from these goroutines would make the order of messages without
+	// a location (which all compare equal when the log is sorted) depend on
+	// goroutine scheduling, which would make the build non-deterministic.
+	entryPointLogs := make([]logger.Log, len(entryPoints))
+	for i := range entryPointLogs {
+		entryPointLogs[i] = logger.NewDeferLog(logger.DeferLogAll, s.log.Overrides)
+		entryPointLogs[i].Level = s.log.Level
+	}
+
 	entryPointWaitGroup := sync.WaitGroup{}
 	entryPointWaitGroup.Add(len(entryPoints))
 	for i, entryPoint := range entryPoints {
 		go func(i int, entryPoint EntryPoint) {
+			log := entryPointLogs[i]
 			var importer logger.Path
 			if entryPoint.InputPathInFileNamespace {
 				importer.Namespace = "file"
@@ -1945,10 +1958,10 @@ func (s *scanner) addEntryPoints(entryPoints []EntryPoint) []graph.EntryPoint {
 						}
 						entryPointInfos[i] = info
 						if msg != nil {
-							s.log.AddID(msg.ID, msg.Kind, nil, logger.Range{}, msg.Data.Text)
+							log.AddID(msg.ID, msg.Kind, nil, logger.Range{}, msg.Data.Text)
 						}
 					} else {
-						s.log.AddError(nil, logger.Range{}, fmt.Sprintf("Could not resolve %q", entryPoint.InputPath))
+						log.AddError(nil, logger.Range{}, fmt.Sprintf("Could not resolve %q", entryPoint.InputPath))
 					}
 					entryPointWaitGroup.Done()
 					return
@@ -1959,7 +1972,7 @@ func (s *scanner) addEntryPoints(entryPoints []EntryPoint) []graph.EntryPoint {
 			resolveResult, didLogError, debug := RunOnResolvePlugins(
 				s.options.Plugins,
 				s.res,
-				s.log,
+				log,
 				s.fs,
 				&s.caches.FSCache,
 				nil,
@@ -1974,7 +1987,7 @@ func (s *scanner) addEntryPoints(entryPoints []EntryPoint) []graph.EntryPoint {
 			)
 			if resolveResult != nil {
 				if resolveResult.PathPair.IsExternal {
-					s.log.AddError(nil, logger.Range{}, fmt.Sprintf("The entry point %q cannot be marked as external", entryPoint.InputPath))
+					log.AddError(nil, logger.Range{}, fmt.Sprintf("The entry point %q cannot be marked as external", entryPoint.InputPath))
 				} else {
 					entryPointInfos[i] = entryPointInfo{results: []resolver.ResolveResult{*resolveResult}}
 				}
@@ -1990,12 +2003,19 @@ func (s *scanner) addEntryPoints(entryPoints []EntryPoint) []graph.EntryPoint {
 						})
 					}
 				}
-				debug.LogErrorMsg(s.log, nil, logger.Range{}, fmt.Sprintf("Could not resolve %q", entryPoint.InputPath), "", notes)
+				debug.LogErrorMsg(log, nil, logger.Range{}, fmt.Sprintf("Could not resolve %q", entryPoint.InputPath), "", notes)
 			}
 			entryPointWaitGroup.Done()
 		}(i, entryPoint)
 	}
 	entryPointWaitGroup.Wait()
+
+	// Merge the per-entry point logs in entry point order for determinism
+	for _, log := range entryPointLogs {
+		for _, msg := range log.Done() {
+			s.log.AddMsg(msg)
+		}
+	}
 
 	if s.options.CancelFlag.DidCancel() {
 		return nil
